@@ -34,22 +34,40 @@ def run(tier="quick", seed=1, replay=None):
         else:
             # exhaustive enumeration = the model check of the layout's consequences
             maxt = 3 if quick else 4
-            cfg = vf.write_cfg(wd, "MC_Gguf.cfg", {"Aligns": "{0, 8, 32, 64}", "MaxTensors": maxt,
+            cfg = vf.write_cfg(wd, "MC_Gguf.cfg", {"Aligns": "{0, 8, 24, 32, 64}", "MaxTensors": maxt,
                                                    "NProtos": NPROTOS, "KvProfiles": "{0, 1, 2, 3}"}, MC_BODY)
             vals, r = vf.gen_exhaustive("Gguf", cfg, wd, timeout=1800)
             cov["states"], cov["transitions"] = r["distinct"], r["generated"]
             cov["exhaustive"] = True
-            cov["bounds"] = f"alignments {{absent,8,32,64}} x 4 kv profiles x all tensor lists of <= {maxt} out of {NPROTOS} prototypes"
+            cov["bounds"] = f"alignments {{absent,8,24,32,64}} x 4 kv profiles x all tensor lists of <= {maxt} out of {NPROTOS} prototypes"
             cases = vals
             # deeper lists by simulation (4-5 tensors)
-            cfg = vf.write_cfg(wd, "Sim_Gguf.cfg", {"Aligns": "{0, 8, 32, 64}", "MaxTensors": 5,
+            cfg = vf.write_cfg(wd, "Sim_Gguf.cfg", {"Aligns": "{0, 16, 40, 48, 8, 64}", "MaxTensors": 5,
                                                     "NProtos": NPROTOS, "KvProfiles": "{0, 1, 2}"}, MC_BODY)
             sims, _ = vf.gen_simulate("Gguf", cfg, wd, num=40 if quick else 600, depth=7, seed=seed)
             cases = vf.dedupe(cases + sims)
             for i, c in enumerate(cases):
                 c["id"] = i + 1
             cases += vf.load_witnesses(PROP)
-        recs, v, _ = vf.replay_and_validate(wd, cases, "./fs/ggml", "TestVFGgufReplay", ["fs/ggml"], "Trace_Gguf")
+        try:
+            recs, v, _ = vf.replay_and_validate(wd, cases, "./fs/ggml", "TestVFGgufReplay", ["fs/ggml"], "Trace_Gguf")
+        except vf.Inconclusive as ex:
+            # the harness process died while writing/decoding well-formed files.  Decide whether the
+            # real code crashes: sequential run must pass and the concurrent run must crash again.
+            if "harness does not build" in str(ex) or "goroutine" not in str(ex):
+                raise
+            recs, v, _ = vf.replay_and_validate(wd, cases, "./fs/ggml", "TestVFGgufReplay", ["fs/ggml"],
+                                                "Trace_Gguf", env={"VF_WORKERS": "1"})
+            try:
+                vf.replay_and_validate(wd, cases, "./fs/ggml", "TestVFGgufReplay", ["fs/ggml"], "Trace_Gguf")
+                raise ex
+            except vf.Inconclusive as ex2:
+                if "goroutine" not in str(ex2):
+                    raise
+                p = vf.save_replay(PROP, f"gguf-{tier}-{seed}-concurrent.ndjson",
+                                   "".join(json.dumps(c) + "\n" for c in cases[:2000]))
+                res.violation("the process crashed (twice) while 8 goroutines wrote/decoded well-formed GGUF files "
+                              "concurrently; the same cases pass sequentially: " + str(ex2)[-600:].replace("\n", " | "), p)
         by_id = {str(c["id"]): c for c in cases}
         cov["traces_validated_against_impl"] = len(recs)
         cov["evaluations"] = len(recs)
